@@ -117,7 +117,8 @@ def oracle_eval(mod, cases, workdir, tag, use_model):
 def run(pid, mod, args, seed, t0, workdir):
     tier = args.tier
     known = fw.load_known()
-    b = fw.build(clean=(tier == 'thorough' and os.environ.get('VERIF_NO_CLEAN') != '1' and not args.replay))
+    b = fw.build(clean=(tier == 'thorough' and os.environ.get('VERIF_NO_CLEAN') != '1' and not args.replay),
+                 targets=[mod.props_file[:-2] + '.vo'] + list(mod.oracle_vos) + list(mod.model_vos))
     kernel_fail = {k: why for k, (st, why) in b.kernels.items() if st != 'OK' and k in mod.kernel_files}
     props_vo = mod.props_file[:-2] + '.vo'
     deps = fw.coq_deps(mod.props_file)
